@@ -36,6 +36,9 @@ StepOK(rec) ==
                               /\ rec.post.osize = 0 /\ rec.post.oroot = 0 /\ rec.post.cfg = rec.pre.cfg /\ rec.pre.cfg \in {1, 2}
       [] OTHER -> FALSE
 
+\* elements that own a three-element tree which their clear callback walks, clears and rebuilds: every nested walk
+\* sees the three, every nested clear hands over exactly the three, and the outer clear is not disturbed
+NestedClearOK(rec) == (rec.nest /\ Len(rec.ev) > 0) => (rec.nw = <<3, 3, 1>> /\ rec.nin = 3 * Len(rec.ev))
 \* C01 (+ C15 for clear): contents, order, return values
 C01OK(rec) ==
     /\ rec.out = "ok"
@@ -50,8 +53,10 @@ C01OK(rec) ==
                                   \* the parent reported for a hinted insert: the found element's own parent, or the
                                   \* node the search ended at (where the element would be attached)
                                   /\ rec.nopar \/ rec.par = (IF rec.ret # 0 THEN pre.p[rec.ret] ELSE Find(pre, rec.k).par)
-            [] rec.op = "foreach" -> Mpost = Mpre /\ ForeachContract(Mpre, rec.rev, rec.stop, rec.ev, rec.ret)
-            [] rec.op = "clear" -> ClearContract(Mpre, rec.ev) /\ post.root = 0 /\ post.size = 0
+            [] rec.op = "foreach" -> /\ Mpost = Mpre /\ ForeachContract(Mpre, rec.rev, rec.stop, rec.ev, rec.ret)
+                                     \* a visit function that walks the tree itself sees all of it, in order, every time
+                                     /\ (rec.nest /\ Len(rec.ev) > 0) => rec.nw = <<Cardinality(Mpre), Cardinality(Mpre), 1>>
+            [] rec.op = "clear" -> ClearContract(Mpre, rec.ev) /\ post.root = 0 /\ post.size = 0 /\ NestedClearOK(rec)
             [] rec.op = "height" -> Mpost = Mpre
             [] rec.op = "swap" -> Mpost = Mpre
             [] OTHER -> FALSE
@@ -69,7 +74,7 @@ ContractOK(rec) == C01OK(rec) /\ C02OK(rec)
 C15OK(rec) ==
     rec.op = "clear" =>
        /\ rec.out = "ok" /\ ~rec.post.bad
-       /\ ClearContract(Members(ToSt(rec.pre)), rec.ev)
+       /\ ClearContract(Members(ToSt(rec.pre)), rec.ev) /\ NestedClearOK(rec)
        /\ ToSt(rec.post) = Empty
 
 ModelOps(rec) == LET M == Members(ToSt(rec.pre)) IN
